@@ -374,8 +374,12 @@ class _SearchIndexer(dict):
             # This way, both `signac find x 4.0` and `signac find x 4` would
             # return jobs where `sp.x` is stored as either 4.0 or 4.
             if isinstance(value, Number) and float(value).is_integer():
-                result_float = index.get(_float(value), set())
                 result_int = index.get(int(value), set())
+                if float(value) != value:
+                    # An integer that no float represents exactly (e.g. 2**53 + 1)
+                    # is not equal to the float it would be rounded to.
+                    return result_int
+                result_float = index.get(_float(value), set())
                 return result_int.union(result_float)
             else:
                 return index.get(value, set())
